@@ -116,3 +116,29 @@ func leafFamily(level int) []SCase {
 	}
 	return out
 }
+
+// collisionTriples: three definitions whose names normalise to the same Go type name, with contents following every
+// equality pattern (ABB, ABA, AAB, ABC, AAA); variant(i) builds content i; each definition is referenced from a root
+// property. With nested=true the second definition additionally refers to the third one from inside itself.
+func collisionTriples(prefix string, variant func(i int) J, nested bool) []SCase {
+	names := []string{"sku-code", "skuCode", "sku_code"}
+	var out []SCase
+	for _, pat := range []string{"ABB", "ABA", "AAB", "ABC", "AAA"} {
+		defs := J{}
+		props := J{}
+		for i, n := range names {
+			d := variant(int(pat[i] - 'A'))
+			if nested && i == 1 {
+				if pm, ok := d["properties"].(J); ok {
+					pm["toThird"] = J{"$ref": "#/$defs/" + names[2]}
+				}
+			}
+			defs[n] = d
+			props[fmt.Sprintf("p%d", i)] = J{"$ref": "#/$defs/" + n}
+		}
+		id := fmt.Sprintf("%s/same-type-name/triple/%s/nested=%v", prefix, pat, nested)
+		out = append(out, SCase{ID: id, Schema: J{"type": "object", "properties": props, "$defs": defs}, Cfg: baseCfg(),
+			Axes: map[string]string{"pos": "same-type-name", "leaf": "triple-" + pat}})
+	}
+	return out
+}
